@@ -420,13 +420,18 @@ la_mktemp(struct archive_write_disk *a)
 	a->tmpname = a->_tmpname_data.s;
 
 	fd = __archive_mkstemp(a->tmpname);
-	if (fd == -1)
+	if (fd == -1) {
+		a->tmpname = NULL;
 		return -1;
+	}
 
 	mode = a->mode & 0777 & ~a->user_umask;
 	if (fchmod(fd, mode) == -1) {
 		oerrno = errno;
 		close(fd);
+		/* Do not leave the temporary file behind. */
+		unlink(a->tmpname);
+		a->tmpname = NULL;
 		errno = oerrno;
 		return -1;
 	}
